@@ -194,14 +194,40 @@ class Harness:
     def cover(self, name):
         self.covers.add(name)
 
-    def check(self, name, cond, note=None):
+    def check(self, name, cond, note=None, opaque=()):
+        """Obligation clause.  ``opaque``: sub-terms to generalise to fresh symbols first (a proof that does
+        not need a definition should not see it); falls back to the full query when that is not enough."""
         if self.symbolic:
+            if opaque and self._check_opaque(name, cond, opaque):
+                return
             self._check_sym(name, cond, note)
         else:
             ok = bool(cond)
             self.results.append((name, "ok" if ok else "failed", None, note))
             if not ok:
                 self.failed_concrete.append(name)
+
+    def _check_opaque(self, name, cond, opaque):
+        c = self.ctx
+        goal = to_z3_bool(cond)
+        subs = []
+        for i, t in enumerate(opaque):
+            tz = lift_real(t)
+            subs.append((tz, z3.Real(c.fresh_name(f"opaque{i}"))))
+        s = z3.Solver()
+        s.set("timeout", c.timeout_ms)
+        for f in c.solver.assertions():
+            s.add(z3.substitute(f, *subs))
+        s.add(z3.substitute(z3.Not(goal), *subs))
+        t0 = time.time()
+        r = s.check()
+        c.queries += 1
+        c.solver_s += time.time() - t0
+        if r == z3.unsat:
+            self.results.append((name, "discharged", None, f"{time.time() - t0:.3f}s"))
+            c.assume(goal)
+            return True
+        return False
 
     def _check_sym(self, name, cond, note):
         c = self.ctx
@@ -286,7 +312,11 @@ class Harness:
 
     # ---- stubs (modular calls) --------------------------------------------------------
     def stub(self, module, name, replacement):
-        """Replace ``module.name`` for the rest of this path/run (restored afterwards)."""
+        """Replace ``module.name`` for the rest of this path/run (restored afterwards).
+
+        Only in symbolic mode: a replay always runs the real callee."""
+        if not self.symbolic:
+            return
         old = getattr(module, name)
         setattr(module, name, replacement)
         self._patches.append((module, name, old))
@@ -296,6 +326,14 @@ class Harness:
         for module, name, old in reversed(self._patches):
             setattr(module, name, old)
         self._patches.clear()
+
+    def pure_function(self, name, arity):
+        """Assumed contract 'the callee is a pure real function of its arguments' (an uninterpreted function)."""
+        f = z3.Function(name, *([z3.RealSort()] * (arity + 1)))
+
+        def call(*args):
+            return SymReal(f(*[lift_real(a) for a in args[:arity]]))
+        return call
 
     def fresh_real(self, base="havoc"):
         if self.symbolic:
@@ -447,6 +485,8 @@ def explore(ob: Obligation, known_open=(), tier="quick"):
                 a["models"].append(model)
             if status == "unknown" and len(a["info"]) < 3:
                 a["info"].append(str(info))
+            if status == "discharged" and isinstance(info, str) and info.endswith("s") and info[:-1].replace(".", "").isdigit():
+                a["max_s"] = max(a.get("max_s", 0.0), float(info[:-1]))
         if exc is not None:
             if exc[0] == "engine":
                 a = agg.setdefault("@engine", {"discharged": 0, "sat": 0, "unknown": 0, "models": [], "info": []})
@@ -527,7 +567,7 @@ def run_obligation(ob: Obligation, known=(), tier="quick"):
     res["stubs"] = sorted(set(res["stubs"]) | stubs)
     status = "discharged"
     for name, a in agg.items():
-        cl = {"paths_discharged": a.get("discharged", 0), "paths_sat": a.get("sat", 0), "paths_unknown": a.get("unknown", 0)}
+        cl = {"paths_discharged": a.get("discharged", 0), "paths_sat": a.get("sat", 0), "paths_unknown": a.get("unknown", 0), "max_query_s": round(a.get("max_s", 0.0), 3)}
         res["clauses"][name] = cl
         if a.get("sat", 0):
             reproduced = None
